@@ -109,20 +109,21 @@ type sqlResult struct {
 }
 
 type call struct {
-	kind   callKind
-	src    string // incarnation id ("h1#1", "cli:h1#3", "client:c1")
-	dst    string // mysql host or "zk"
-	query  string // normalised statement ("<dial>" for dials)
-	args   []any
-	ctx    context.Context
-	connID int64
-	res    chan sqlResult
-	zkc    *memConn      // for zk dial
-	stk    uint64        // hash of the submitting goroutine's call stack: goroutine-stable tie-break
-	it     *iterRec      // state-handler invocation of src that was open when the call was issued
-	ev     *SQLEvent     // event of a statement whose reply is deferred (blocked SET read_only)
-	issued time.Duration // instant at which the caller issued the call
-	marker *SQLEvent     // pending-attempt marker of a delayed statement
+	kind     callKind
+	src      string // incarnation id ("h1#1", "cli:h1#3", "client:c1")
+	dst      string // mysql host or "zk"
+	query    string // normalised statement ("<dial>" for dials)
+	args     []any
+	ctx      context.Context
+	connID   int64
+	res      chan sqlResult
+	zkc      *memConn      // for zk dial
+	stk      uint64        // hash of the submitting goroutine's call stack: goroutine-stable tie-break
+	inSwitch bool          // issued from inside (*App).performSwitchover
+	it       *iterRec      // state-handler invocation of src that was open when the call was issued
+	ev       *SQLEvent     // event of a statement whose reply is deferred (blocked SET read_only)
+	issued   time.Duration // instant at which the caller issued the call
+	marker   *SQLEvent     // pending-attempt marker of a delayed statement
 	// filled by controller
 	key  string // stable identity incl. occurrence number
 	done bool
@@ -210,7 +211,7 @@ func (s *Sim) submit(c *call) sqlResult {
 	c.issued = s.now()
 	// stack identity by function name and line (program counters are not stable across
 	// processes when the binary is position independent)
-	var pcs [32]uintptr
+	var pcs [48]uintptr
 	n := runtime.Callers(2, pcs[:])
 	h := uint64(1469598103934665603)
 	frames := runtime.CallersFrames(pcs[:n])
@@ -220,6 +221,9 @@ func (s *Sim) submit(c *call) sqlResult {
 			h = (h ^ uint64(fr.Function[i])) * 1099511628211
 		}
 		h = (h ^ uint64(fr.Line)) * 1099511628211
+		if strings.HasSuffix(fr.Function, ".performSwitchover") {
+			c.inSwitch = true
+		}
 		if !more {
 			break
 		}
